@@ -553,4 +553,33 @@ theorem sdCanon_canon (x : UInt64) : sdCanon (fmtCanon x) = some x := by
   rw [(digits_all_dot (decNat x.toNat) [0x30] (allDigits_decNat _)).1, natOfDigits_decNat]
   simp
 
+/-- the canonical `strtod` in the shape C02 uses (bits, bytes consumed) -/
+def sdCanonC (t : Bytes) : UInt64 × Nat := (UInt64.ofNat (natOfDigits (digits t)), t.length)
+
+theorem sdCanonC_canon (x : UInt64) : sdCanonC (fmtCanon x) = (x, (fmtCanon x).length) := by
+  have := sdCanon_canon x
+  simp only [sdCanon, Option.some.injEq] at this
+  simp [sdCanonC, this]
+
+theorem decNat_length_le : ∀ (k n : Nat), n < 10 ^ (k + 1) → (decNat n).length ≤ k + 1 := by
+  intro k
+  induction k with
+  | zero => intro n h; rw [decNat_small (by simpa using h)]; simp
+  | succ k ih =>
+    intro n h
+    by_cases h10 : n < 10
+    · rw [decNat_small h10]; simp
+    · rw [decNat_rec (by omega)]
+      have : n / 10 < 10 ^ (k + 1) := by
+        rw [Nat.pow_succ] at h; omega
+      have := ih (n / 10) this
+      simp only [List.length_append, List.length_singleton]; omega
+
+theorem fmtCanon_short (x : UInt64) : (fmtCanon x).length < 100 := by
+  have h : x.toNat < 10 ^ (19 + 1) := by
+    have := x.toNat_lt
+    omega
+  have := decNat_length_le 19 x.toNat h
+  simp only [fmtCanon, List.length_append, List.length_cons, List.length_nil]; omega
+
 end Usual.C03
